@@ -66,6 +66,7 @@ func (vm *Type) Run(retResult bool) (value.Type, error) {
 
 	for ip < len(*cs) {
 		instr := (*cs)[ip]
+		verifStep(ip, instr, m, tmp)
 
 		// TODO allow tracing flag
 		// fmt.Printf("%8d | %8p | %v\n", ip, ctxp, instr)
